@@ -35,3 +35,9 @@ def run(ck: Checker):
 
     with ck.as_rule('C06-10', 'slots are returned also through an ensemble stage: every request whose member answers are all in is emitted exactly once (the ensemble catalog obligations C02-5: one increment per answer, completion by count, emit or completion test after every recorded answer, one catalog pop per emit)', minimum=6):
         c02.check_ensemble(ck, 'C02-5')
+    ck.rule('C06-11', "the admission wait's timeout becomes ServerBacklogFull: the handler around the timed wait catches the class the standard library raises, not only the module's own re-bound TimeoutError subclass", minimum=2)
+    from .common import check_std_timeout_handlers
+
+    for name in server.SERVERS:
+        s = server.discover(ck.repo, name)
+        check_std_timeout_handlers(ck, 'C06-11', [m for m in s.cls.methods() if m.name in ('_enqueue', '_wait_for_result', '__aenter__', '__aexit__')])
